@@ -1139,3 +1139,13 @@ M('C14', 'grid insert puts the block after the tail', 'odl/discr/grid.py',
   """            new_vecs = (self.coord_vectors[:index] +
                         self.coord_vectors[index:] + grid.coord_vectors)""",
   'RectGrid.insert')
+M('C11', 'pdhg rebinds x_relax when theta is zero',
+  'odl/solvers/nonsmooth/primal_dual_hybrid_gradient.py',
+  "        x_relax.lincomb(1 + theta, x, -theta, x_old)\n",
+  "        if theta == 0:\n            x_relax = x\n        else:\n            x_relax.lincomb(1 + theta, x, -theta, x_old)\n",
+  'pdhg')
+M('C12', 'pdhg keeps the initial proximals under acceleration',
+  'odl/solvers/nonsmooth/primal_dual_hybrid_gradient.py',
+  "proximal_constant = (gamma_primal is None) and (gamma_dual is None)",
+  "proximal_constant = (gamma_primal is None) or (gamma_dual is None)",
+  'pdhg')
